@@ -1,7 +1,6 @@
 (* Relations parser: text conservation, totality (no panic, fuel suffices). *)
 From V.model Require Import Base RelLex RelParse.
 From V.proofs Require Import BaseP RelLexP.
-Set Default Timeout 30.
 
 (* what a parser routine may do to the state: keep all text in order, never un-consume,
    never drop errors *)
